@@ -162,3 +162,43 @@ def _brief(r):
     return {"method": r["method"], "uri": r["uri"], "version": list(r["version"]),
             "headers": [list(h) for h in r["headers"]][:12], "body": r["body"][:200],
             "body_error": r["body_error"], "end": r["end"]}
+
+
+def campaign(tier, seed):
+    """thorough tier only: two coverage-guided Atheris campaigns (empty corpus / repository fixtures) with the C01 and C06
+    oracles inside the fuzz target.  -> dict(evaluations, failures=[{case, violation, property}], info)"""
+    import json
+    import os
+    import shutil
+    import subprocess
+    import tempfile
+    from vlib.common import VERIF
+    if tier != "thorough":
+        return None
+    secs = int(os.environ.get("VERIF_FUZZ_SECONDS", "120"))
+    out = {"evaluations": 0, "failures": [], "info": {}}
+    procs = []
+    for kind in ("empty", "fixtures"):
+        wd = tempfile.mkdtemp(prefix="verif-fuzz-")
+        p = subprocess.Popen([os.path.join(VERIF, "tools", "fuzz_parser.py"), wd, str(seed + 1), str(secs), kind],
+                             stdout=subprocess.DEVNULL, stderr=subprocess.PIPE, text=True)
+        procs.append((kind, wd, p))
+    for kind, wd, p in procs:
+        try:
+            _, err = p.communicate(timeout=secs + 120)
+        except subprocess.TimeoutExpired:
+            p.kill()
+            err = "timeout"
+        res = {}
+        try:
+            with open(os.path.join(wd, "result.json")) as f:
+                res = json.load(f)
+        except (OSError, ValueError):
+            pass
+        out["evaluations"] += res.get("execs", 0)
+        out["info"][kind] = {"execs": res.get("execs", 0), "requests_yielded": res.get("yielded", 0), "rejected": res.get("rejected", 0),
+                             "seconds": secs, "libfuzzer_tail": (err or "")[-300:]}
+        if res.get("violation"):
+            out["failures"].append(res["violation"])
+        shutil.rmtree(wd, True)
+    return out
